@@ -58,3 +58,68 @@ claim('C03', 'other',
       'over 13 034 configurations x name subsets x values (quick: one sixteenth, ~870 000 cases).',
       'Trusted: the set-based reference attrs_valid; the corner "prohibited declaration that the wildcard admits" is outside the deciding scope (reported).',
       'DESIGN.md 5/C03')
+
+claim('C04', 'other',
+      'Proved kernel + bounded: ValidationContext.raise_or_collect (strict raises the very error, lax appends, skip neither; never raises in lax), '
+      'is_valid/validate of components and of schemas over the ghost sequence of iter_errors (verdict = that of the first error, all arguments '
+      'forwarded), and the CLI exit status (loop invariant; exit status 0 iff all files valid, for every error count) are proved. Agreement of '
+      'all entry points, modes and 10 source kinds, package-level functions included, is a bounded run-time contract on generated faulty documents, '
+      'plus the CLI as a subprocess for 0, 1, 255, 256, 512 errors.',
+      'Trusted: POSIX 8-bit exit status; the non-interference of the validation mode before the first error is a 2-safety property outside this family and only bounded-checked.',
+      'DESIGN.md 5/C04')
+claim('C05', 'other',
+      'Bounded-dominated: the proved part is the boolean codec round trip (python_to_boolean / boolean_to_python) shared with C02; decode/encode '
+      'round trip for 5 lossless converters and strict-encode soundness on mutated data are bounded run-time contracts over generated documents.',
+      'Thin proved kernel (stated as such). Encoding performs no identity-constraint checks: listed finding.', 'DESIGN.md 5/C05')
+claim('C06', 'other',
+      'Bounded only for the equality lazy = eager (errors in order, data, iteration multiset, thin and non-thin); the proved part is the limit '
+      'counter contract of _lazy_iterparse shared with C11 (same depth accounting in both loaders). Depth 2 reported only.',
+      'The order in which a lazy resource yields the descendants of a chunk is pinned by the test-suite and differs from document order: compared as multisets.', 'DESIGN.md 5/C06')
+claim('C07', 'other',
+      'Proved kernel + bounded: statement contracts on the xsi:nil block and the xsi:type block of XsdElement.raw_decode (nilled <=> nillable and true and no '
+      'fixed and empty; error <=> lookup fails or the named type is blocked) and XsdType.is_blocked are proved for all inputs; derivation, abstract, block '
+      'defaults, substitution groups are covered by a bounded contract against a reference decision procedure over flag products.',
+      'is_derived and get_instance_type are uninterpreted in the proofs and exercised only by the bounded part; XPath tests of type alternatives are elementpath.', 'DESIGN.md 5/C07')
+claim('C08', 'other',
+      'Proved kernel + bounded: IdentityCounter.increase (exactly one duplicate error per repeated tuple), KeyrefCounter.increase, reset and '
+      'KeyrefCounter.iter_errors (loop invariant: an error exactly for complete dangling tuples) are proved; selection of nodes and fields is XPath '
+      '(elementpath) and is covered by a bounded contract against key_table_ok over exhaustive small tables with lexical variants, and ID/IDREF documents.',
+      'xs:unique over incomplete tuples is outside the deciding scope; elements that exist only through xsi:type are invisible to selectors (observation in DESIGN.md).', 'DESIGN.md 5/C08')
+claim('C09', 'other',
+      'Bounded only: permutations, include splits, location spellings, rebuild, copy of the maps, pickle, import order - each arrangement gives the same '
+      'global components, errors and data on four probes. No per-function contract within reach expresses "a factory is insensitive to when it runs".',
+      'Thin: one hand-written family of 14 forward-referencing globals, not the corpus.', 'DESIGN.md 5/C09')
+claim('C10', 'other',
+      'Proved kernel + bounded: ValidationContext.clear resets every status slot (slot list read from the real class) and IdentityCounter.reset are proved; '
+      'absence of residue between calls is a bounded contract over seeded call histories compared with a fresh schema.',
+      'A-CACHE (memo caches are transparent) is assumed by the encoding.', 'DESIGN.md 5/C10')
+claim('C11', 'other',
+      'Proved kernel + bounded: the depth / element counters of both loaders (XMLResourceExceeded raised exactly when a limit is exceeded; a document at '
+      'the limit is processed), LimitsModule.__setattr__, raise_or_collect never raising in lax mode are proved; "verdict or library error" on '
+      'mutated / truncated documents and the limit sweep are bounded.',
+      'RecursionError for deep nesting and an elementpath assertion on odd namespace names in lazy mode are listed findings.', 'DESIGN.md 5/C11')
+claim('C12', 'proof',
+      'XMLResource.access_control is proved for all strings: returning normally implies allowed(mode, url, base) with segment-wise containment for '
+      'sandbox; only XMLResourceBlocked is raised; is_local_scheme and the local/remote classification are proved exact (exactly one class per URL-like string). '
+      'Canonicalisation of spellings (normalize_url, urlsplit, pathlib) is assumed in the proof and exercised by an exhaustive bounded catalogue with an '
+      'audit hook: 5 modes x include/import/redefine/instance hint x 14 spellings.',
+      'Proved: the decision kernel. Assumed: normalize_url canonicalises, no symlinks, every fetch goes through access_control (dominance is checked by the bounded catalogue, not proved).',
+      'DESIGN.md 5/C12')
+claim('C13', 'other',
+      'Proved kernel + bounded: the defuse truth table of XMLResource.is_defused and the URL classes it uses are proved; refusal before expansion for 11 '
+      'payloads x 4 modes x 9 source kinds and for main / included schemas is a bounded contract with an audit hook on the secret file.',
+      'expat calls the declaration handlers before any expansion (assumed). Large prolog on a non-seekable stream: listed finding.', 'DESIGN.md 5/C13')
+claim('C17', 'other',
+      'Proved kernel + bounded: under the representation invariant R-INV, unmap_qname(map_qname(Q(u,l))) = Q(u,l) for all strings, map_qname and '
+      'unmap_qname against their case specifications (cvc5/z3 strings); R-INV preservation by __setitem__/__delitem__ and by stacked '
+      'set_xmlns_context, and "every decoded key resolves to the expanded name of its node" are bounded run-time contracts.',
+      'set_xmlns_context is not within reach of the VC generator (loops over contexts): bounded stand-in. Encode restoration decided up to three element levels.', 'DESIGN.md 5/C17')
+claim('C19', 'other',
+      'Proved kernel + bounded: the positional step of etree_getpath (loop invariant with a counting function: position and sibling count are exact, a predicate '
+      'is emitted iff there are same-tag siblings) and error.elem defaulting in raise_or_collect are proved; "a single fault is reported at the node or its '
+      'parent, every path selects exactly error.elem" is a bounded contract over every node x 6 fault kinds.',
+      'XPath evaluation of the path (elementpath) assumed.', 'DESIGN.md 5/C19')
+claim('C20', 'other',
+      'Bounded only: schema.find(path(e)) is the declaration that governed e (observed through the public validation_hook); iter_errors(path=p) equals the '
+      'whole-document errors restricted to the subtree; errors above a max_depth cut are unchanged.',
+      'The property is about XPath selection on the schema (elementpath): no per-function contract in /repo decides it.', 'DESIGN.md 5/C20')
